@@ -1,6 +1,7 @@
 //! shared machinery (DESIGN.md sec. 3)
 pub mod refalg;
 pub mod refmat;
+pub mod local;
 pub mod matgen;
 pub mod pools;
 pub mod sc;
